@@ -39,7 +39,13 @@ SPEC = dict(
          'sleep); the thorough tier adds 15-call histories over 24 s for a shell waiting for a child, a lingering grandchild, a '
          'TERM-ignoring sleeper and an executable that alternates between timing out and succeeding, and 7-call histories '
          'through CmdFan.GetPwm and CmdSensor.GetValue with the 2 s constant (the sixth consecutive timeout lies beyond 10 s). '
-         'Every single-call case of driver exec is also followed by a logger probe.',
+         'Every single-call case of driver exec is also followed by a logger probe. Vanishing executable (both tiers, <1 s each): '
+         'under one name, direct and through a symlink, a script runs fine, is then renamed away / replaced by a directory / '
+         'by a dangling symlink / chmod 000 / restored by another process, and is called again each time (3 sequences through '
+         'SafeCmdExecution, in quick one per wrapper, in thorough all through every wrapper): output or error, never a panic. '
+         'Both drivers run in a fake desktop session: DISPLAY=:77, fake who / id / sudo / notify-send first in $PATH with a '
+         'notification pipeline that takes 3 s, so a call that sends a desktop notification on an error path of command '
+         'execution exceeds timeout + margin (on the unchanged tree none is sent: notify_calls stays empty).',
     assumptions=[
         'os/exec model (cmd_output): SIGKILL at the context deadline ends the child at once; its descendants are not killed; '
         'Wait blocks on the stdout/stderr copying goroutines until every holder closed the pipes; with cmd.WaitDelay = d > 0 it '
